@@ -54,6 +54,29 @@ fn verif_replay_c16() {
     let grid: Vec<u64> = vec![0, 1, 1 << 11, 1 << 12, u64::MAX, u64::MAX - (1 << 12), 1 << 63, (1 << 63) - 1, (1 << 63) + (1 << 12), 0x4000_0000_0000_0000, 0xC000_0000_0000_0000];
     let lambdas = [1e-9, 1e-3, 0.01, 0.0101, 0.5, 0.6931, 1.0, 3.0, 30.0, 700.0];
     let mut cases = 0u64;
+    // boundary draws of the first (rectangle) branch: generator words u = k / 2^52 for which c1 * u rounds to 1.0 or to its neighbours,
+    // for the rates ProbMinHash3 uses (lambda = ln(m / (m - 1))) and the spread above
+    {
+        let mut rates: Vec<f64> = lambdas.to_vec();
+        let mm = if thorough { 4096 } else { 400 };
+        for m in 2..=mm { rates.push(((m as f64) / ((m - 1) as f64)).ln()); }
+        let two52 = (1u64 << 52) as f64;
+        for &l in &rates {
+            let c1 = l.exp_m1() / l;
+            if !(c1.is_finite() && c1 >= 1.0) { continue; }
+            let k0 = (two52 / c1) as u64;
+            for dk in 0..7u64 {
+                let k = (k0 + dk).saturating_sub(3);
+                if k >= (1u64 << 52) { continue; }
+                for &nxt in &[0u64, u64::MAX, 1 << 63] {
+                    cases += 1;
+                    let script = [k << 12, nxt, nxt];
+                    let x = one(l, &script, seed ^ cases);
+                    if !(x >= 0.0 && x < 1.0) { out(true, serde_json::json!({"lambda": l, "script": script, "seed": seed ^ cases}), format!("sample = {x}"), "0 <= sample < 1".into(), cases); return; }
+                }
+            }
+        }
+    }
     for &l in &lambdas {
         for &a in &grid { for &b in &grid { for &c in &grid {
             cases += 1;
